@@ -28,6 +28,24 @@ CHECKS = {
    design="6/C07",
    note="Trusted: reference encoder for lengths. Unchecked iterative skipper: either exact skip or DepthLimit accepted beyond level 64.",
    technique="runtime monitoring: position monitor + reference lengths, fixed-stack threads, supervised processes"),
+ "C09": dict(
+   level="fault_enumeration",
+   text="Complete enumeration, per base message, of truncations, single-bit flips, length/count boundary overwrites and type-code replacements (plus unstructured input) fed to the safe decoders (read walk, skip, read_message_begin, ApplicationException::decode; sync+async; binary, binary_le, compact) under a panic monitor, counting allocator, CPU meter, poll-budget executor and process supervisor; strict prefixes must be rejected.",
+   design="6/C09",
+   note="Runtime (hand-written) half; generated decoders are added by the generated-code pipeline when registered. Bounds: alloc <= 64 KiB + 256 x len, CPU <= 20 ms + 50 us/byte, polls <= 16 x len + 256. Unchecked reader excluded by its contract.",
+   technique="runtime monitoring: fault enumeration under allocator/panic/CPU/poll monitors in supervised workers"),
+ "C11": dict(
+   level="exploration",
+   text="Differential oracle unchecked vs checked binary codec inside the documented contract (exact-size window from the checked size; complete reference-encoded input): identical bytes, identical values and consumed counts, identical skip counts for a partial reader; guard regions around the window; dev-profile ub_checks abort => supervised worker death => violation.",
+   design="6/C11",
+   note="Runtime half; generated types with keep_unknown_fields and the ASan/Miri layers are added in later commits. Guard regions cannot see out-of-window reads; ub_checks cover get_unchecked only.",
+   technique="runtime monitoring: differential oracle + guard regions + std ub_checks, supervised processes"),
+ "C12": dict(
+   level="exploration",
+   text="Sync-vs-async differential under a scripted AsyncRead and a poll-counting executor: value/error agreement, bytes handed out == bytes consumed in memory (sentinel stays unread), poll bound; exhaustive one- and two-split schedules for messages <= 48 bytes; faulted inputs; partial reader drives the async skipper on every wire type.",
+   design="6/C12",
+   note="Runtime half (interpreter over the async protocols); generated decode_async added by the generated-code pipeline. The schedule space is exhaustive only for <= 2 splits of short messages.",
+   technique="runtime monitoring: deterministic executor + scripted stream, differential oracle, exhaustive small schedule space"),
 }
 
 NOT_YET = "check not built yet (work in progress; see DESIGN.md section 6 for the planned monitor)"
